@@ -193,5 +193,9 @@ module.exports = {
     const job = { code: w.code, meta: w.meta, config: w.config, cfgName: w.cfgName }
     const { responses, prefixes } = rewriteJobs([Object.assign({ cfgKey: 'replay' }, job)])
     return { violations: (await check(job, responses[0], prefixes[0], { exec: !!(w.meta.reentrant !== undefined || w.meta.collision), faults: 'all', rng: new Rng(1) })).violations }
-  }
+  },
+  COLLISION,
+  RES,
+  NEAR,
+  wrapCollision: wrap
 }
